@@ -239,7 +239,11 @@ class Type4Tag(nfc.tag.Tag):
             (p1, p2) = pack(">H", offset)
             max_data = min(self._max_le, size)
             log.debug("read_binary from %d to %d", offset, offset + max_data)
-            return self.tag.send_apdu(0, 0xB0, p1, p2, mrl=max_data)
+            data = self.tag.send_apdu(0, 0xB0, p1, p2, mrl=max_data)
+            if len(data) > max(max_data, 0):
+                log.debug("read binary returned more data than requested")
+                raise Type4TagCommandError(nfc.tag.PROTOCOL_ERROR)
+            return data
 
         def _update_binary(self, offset, data):
             (p1, p2) = pack(">H", offset)
@@ -337,7 +341,11 @@ class Type4Tag(nfc.tag.Tag):
                 data = bytearray()
                 while len(data) < nlen:
                     offset = self._nlen_size + len(data)
-                    data += self._read_binary(offset, nlen - len(data))
+                    more = self._read_binary(offset, nlen - len(data))
+                    if len(more) == 0:
+                        log.debug("read binary returned no data")
+                        return None
+                    data += more
 
             except Type4TagCommandError:
                 return None
